@@ -4,6 +4,7 @@ import (
 	"encoding/json"
 	"fmt"
 	"os"
+	"sort"
 	"time"
 )
 
@@ -71,6 +72,15 @@ func runEmit(prop string) int {
 		return 2
 	}
 	r := NewRun(prop, "emit", prog)
+	// all declared functions of the tree the references are taken from
+	{
+		keys := []string{}
+		for k := range prog.fkeys {
+			keys = append(keys, k)
+		}
+		sort.Strings(keys)
+		writeJSON(refPath("functions.json"), keys)
+	}
 	if prop == "C07" {
 		checkSamplerInventory(r)
 		fmt.Println("C07: wrote sampler inventory")
